@@ -39,13 +39,19 @@ BATCH = 8
 
 
 def thresholds(tier):
-    return {"accepted": 80, "protos_checked": 200, "near_miss": 200, "near_miss_refused": 100,
+    return {"accepted": 80, "protos_checked": 200, "near_miss": 200, "near_miss_refused": 100, "multi_opset_accepted": 200, "multi_opset_wellformed": 50,
             "anchor:onnxscript._internal.converter:Converter._translate_block": 100}
 
 
 def cases(tier, seed):
     n = 6000 if tier == "thorough" else 320
-    return [{"first": i, "n": BATCH, "seed": seed} for i in range(0, n, BATCH)]
+    out = [{"first": i, "n": BATCH, "seed": seed} for i in range(0, n, BATCH)]
+    # fixed family: functions written against different standard opsets (enumerated, the same at every seed)
+    from . import c02_multi
+
+    k = len(c02_multi.programs())
+    out += [{"multi": True, "first": i, "n": 48, "seed": seed} for i in range(0, k, 48)]
+    return out
 
 
 # ------------------------------------------------------------------ near-miss mutations (text level)
@@ -142,6 +148,7 @@ def check_protos(f, mod, p, hit, tag):
 
 
 _SIGS = [
+    ("function_opset_incompatible", r"Opset import for domain\s+in function op \w+\s*is not compatible with the version imported by model"),
     ("attr_ref_in_main_graph", r"Attribute 'value_\w+' expect|ref_attr_name|attribute.*reference|Attribute.*refer"),
     ("missing_opset_import", r"No opset import for domain|is used but not imported"),
     ("if_output_type_mismatch", r"op_type:If[^\n]*Mismatched type"),
@@ -276,7 +283,41 @@ def _faithful(f2, pm, cls, rng, viol, hit):
             return
 
 
+def run_multi(spec):
+    """the multi-opset family (vf/c02_multi.py): every program is legal, so every one must be accepted and well-formed"""
+    import types
+
+    from . import c02_multi
+
+    viol, ev, sigs = [], {}, []
+
+    def hit(k, n=1):
+        ev[k] = ev.get(k, 0) + n
+
+    for k, (label, src, helpers) in enumerate(c02_multi.programs()[spec["first"]: spec["first"] + spec["n"]]):
+        hit("multi_opset_programs")
+        try:
+            mod = c01.load_program(src, f"c02m_{spec['seed']}_{spec['first'] + k}")
+        except Exception as e:
+            viol.append({"key": f"multi_opset_refused;exc={type(e).__name__}", "what": f"legal program with functions on two standard opsets is refused [{label}]: {str(e)[:200]}",
+                         "detail": {"src": src, "label": label}})
+            continue
+        hit("accepted")
+        hit("multi_opset_accepted")
+        p = types.SimpleNamespace(src=src, helpers=helpers)
+        errs = check_protos(mod.main, mod, p, hit, "m")
+        if not errs:
+            hit("multi_opset_wellformed")
+            sigs.append("multi|" + label)
+        for stage, msg in errs:
+            viol.append({"key": f"accepted;stage={stage};err={sig(msg)}", "what": f"accepted multi-opset program [{label}], {stage}: {msg[:300]}",
+                         "detail": {"src": src, "label": label}})
+    return {"status": "ok", "viol": viol, "events": ev, "nontrivial": bool(sigs), "sig": None, "sample": None, "data": {"sigs": sigs}}
+
+
 def run_case(spec):
+    if spec.get("multi"):
+        return run_multi(spec)
     viol, ev, sigs, sample = [], {}, [], None
     for i in range(spec["first"], spec["first"] + spec["n"]):
         r = one_program(spec["seed"], i)
